@@ -1366,6 +1366,11 @@ class Evaluator:
                 return Agg("core::ops::control_flow::ControlFlow", "Continue", {"0": v.fields.get("0")})
             if isinstance(v, Agg) and v.var in ("Err", "None"):
                 return Agg("core::ops::control_flow::ControlFlow", "Break", {"0": v})
+        if (res or fn).endswith("FromResidual>::from_residual") or fn.endswith("FromResidual::from_residual"):
+            # `expr?` on the error path: the residual Err(e) / None becomes the function's own Err(From::from(e)) / None
+            v = args[0]
+            if isinstance(v, Agg) and v.var in ("Err", "None"):
+                return v
         if fn.startswith("core::ops::bit::Not::not"):
             v = args[0]
             return cnot(self.as_cond(v)) if isinstance(v, Cond) else Sym("not(%s)" % vkey(v))
